@@ -121,6 +121,28 @@ fn err_units(got: &Complex<f64>, exact: CDD) -> i64 {
     units(dr.hypot(di), EPS * exact.abs())
 }
 
+/// componentwise scales (S_re, S_im) of the textbook formula: the a-priori bound of each result component is a
+/// small multiple of eps * S.  Products: |ac|+|bd|, |ad|+|bc|; quotients: the same over |w|^2 (roles swapped);
+/// single-rounding operations: the exact component itself.
+fn comp_scales(op: &str, z: &Complex<f64>, w: &Complex<f64>, exact: CDD) -> (f64, f64) {
+    let (a, b, c, d) = (z.real.abs(), z.imag.abs(), w.real.abs(), w.imag.abs());
+    match op {
+        "mul" | "mul_assign" => (a * c + b * d, a * d + b * c),
+        "div" | "div_assign" => { let den = c * c + d * d; ((a * c + b * d) / den, (b * c + a * d) / den) }
+        _ => (exact.re.to_f64().abs(), exact.im.to_f64().abs()),
+    }
+}
+/// error of one component in units of eps * s; a component whose unit lies below the normal range (underflow
+/// region, outside the stated non-overflowing domain) is not judged
+fn comp_units(got: f64, exact: DD, s: f64) -> i64 {
+    if !got.is_finite() { return SAT; }
+    if !s.is_finite() { return 0; }
+    if s > 0.0 && EPS * s < 1e-290 { return 0; }
+    units(DD::from(got).sub(exact).to_f64().abs(), EPS * s)
+}
+const COMP_OPS: [&str; 17] = ["add", "sub", "mul", "div", "add_r", "sub_r", "mul_r", "div_r", "r_mul", "add_assign", "sub_assign", "mul_assign",
+                              "div_assign", "add_assign_r", "sub_assign_r", "mul_assign_r", "div_assign_r"];
+
 // ------------------------------------------------------------------ event emission
 fn emit_pair_rat(z: &Complex<Rat>, w: &Complex<Rat>, cid: i64, out: &mut Out) {
     for r in pair_ops(z, w) {
@@ -158,6 +180,10 @@ fn emit_pair_f64(z: &Complex<f64>, w: &Complex<f64>, exact: bool, cid: i64, out:
             let g = r.r.unwrap_or(nan);
             if exact { e["r"] = jcf(&g); }
             e["units"] = json!(err_units(&g, refv));
+            if COMP_OPS.contains(&r.op) {
+                let (sr, si) = comp_scales(r.op, z, w, refv);
+                e["cu_re"] = json!(comp_units(g.real, refv.re, sr)); e["cu_im"] = json!(comp_units(g.imag, refv.im, si));
+            }
             if r.op.contains("assign") {
                 let gb = r.rb.unwrap_or(nan);
                 if exact { e["rb"] = jcf(&gb); }
@@ -246,16 +272,16 @@ pub fn gen(tier: &str, seed: u64, out: &mut Out) {
         let dy = k % 2 == 0;
         let z = rand_cx(&mut rng, dy);
         // equal operands / equal real parts are the interesting cases of the order
-        let w = match rng.gen_range(0..6) { 0 => z.clone(), 1 => json!({"re": z["re"], "im": rand_rat(&mut rng, dy)}), _ => rand_cx(&mut rng, dy) };
-        let v = match rng.gen_range(0..6) { 0 => w.clone(), 1 => json!({"re": w["re"], "im": rand_rat(&mut rng, dy)}), _ => rand_cx(&mut rng, dy) };
+        let w = match rng.gen_range(0..7) { 0 => z.clone(), 1 => json!({"re": z["re"], "im": rand_rat(&mut rng, dy)}), 2 => json!({"re": rand_rat(&mut rng, dy), "im": z["im"]}), _ => rand_cx(&mut rng, dy) };
+        let v = match rng.gen_range(0..7) { 0 => w.clone(), 1 => json!({"re": w["re"], "im": rand_rat(&mut rng, dy)}), 2 => json!({"re": rand_rat(&mut rng, dy), "im": w["im"]}), _ => rand_cx(&mut rng, dy) };
         push(out, json!({"kind": "triple", "z": z, "w": w, "v": v, "full": true}));
     }
     // (b) order on NaN-free f64 triples over the whole magnitude range (rank embedding)
     for _ in 0..(if quick { 600 } else { 8000 }) {
         let mut p = || -> Value { json!({"re": rng.gen_range(-10..=10), "im": rng.gen_range(-10..=10)}) };
         let z = p(); let mut w = p(); let mut v = p();
-        match rng.gen_range(0..5) { 0 => w["re"] = z["re"].clone(), 1 => w = z.clone(), _ => {} }
-        match rng.gen_range(0..5) { 0 => v["re"] = w["re"].clone(), 1 => v = w.clone(), _ => {} }
+        match rng.gen_range(0..6) { 0 => w["re"] = z["re"].clone(), 1 => w = z.clone(), 2 => w["im"] = z["im"].clone(), _ => {} }
+        match rng.gen_range(0..6) { 0 => v["re"] = w["re"].clone(), 1 => v = w.clone(), 2 => v["im"] = w["im"].clone(), _ => {} }
         push(out, json!({"kind": "rank3", "z": z, "w": w, "v": v}));
     }
     // (c) f64 components of magnitude 1e-100..1e100
@@ -263,6 +289,29 @@ pub fn gen(tier: &str, seed: u64, out: &mut Out) {
         let zs = (k % 5) as u32; let ws = ((k / 5) % 5) as u32;
         let z = wide_cx(&mut rng, zs); let w = wide_cx(&mut rng, ws);
         if w[0] == bits(0.0) && w[1] == bits(0.0) && k % 2 == 0 { continue; }      // a zero divisor only now and then
+        // equal operands now and then (z op= z through a clone)
+        if k % 9 == 4 { push(out, json!({"kind": "wide", "zb": z.clone(), "wb": z})); continue; }
+        push(out, json!({"kind": "wide", "zb": z, "wb": w}));
+    }
+    // (d) components of very different magnitude (ratios 1e-6 .. 1e-20, either component, either or both operands):
+    //     the small component of a product / quotient must be accurate on its own (componentwise units)
+    let hex = |re: f64, im: f64| -> [String; 2] { [bits(re), bits(im)] };
+    for (z, w) in [((1.1, 3.3e-12), (0.7, -2.1e-12)), ((3.0, 0.0), (2.0, 1e-10)), ((1.0, 1e-20), (1.0, 0.0)), ((1e-20, 1.0), (0.0, 1.0)),
+                   ((2.5, -1e-15), (2.5, -1e-15)), ((1e-9, 4.0), (3.0, 1e-13))] {
+        push(out, json!({"kind": "wide", "zb": hex(z.0, z.1), "wb": hex(w.0, w.1)}));
+    }
+    let skew = |rng: &mut StdRng, mode: u32| -> [String; 2] {
+        let base = 10f64.powf(rng.gen_range(-30.0..30.0)) * rng.gen_range(1.0..10.0);
+        let ratio = 10f64.powf(-rng.gen_range(6.0..20.0)) * rng.gen_range(1.0..10.0);
+        let sg = |rng: &mut StdRng, x: f64| if rng.gen_bool(0.5) { -x } else { x };
+        match mode { 0 => hex(sg(rng, base), sg(rng, base * ratio)), 1 => hex(sg(rng, base * ratio), sg(rng, base)),
+                     2 => hex(sg(rng, base), 0.0), 3 => hex(0.0, sg(rng, base)),
+                     _ => { let f: f64 = rng.gen_range(0.1..10.0); hex(sg(rng, base), sg(rng, base * f)) } }
+    };
+    for k in 0..(if quick { 150 } else { 3000 }) {
+        let (zm, wm) = ((k % 5) as u32, ((k / 5) % 5) as u32);
+        if zm >= 2 && wm >= 2 { continue; }                       // at least one skewed operand
+        let z = skew(&mut rng, zm); let w = if k % 11 == 3 { z.clone() } else { skew(&mut rng, wm) };
         push(out, json!({"kind": "wide", "zb": z, "wb": w}));
     }
 }
